@@ -202,6 +202,25 @@ IW_EXPORT iwrc iwp_copy_bytes(
   off_t off, size_t siz,
   off_t noff);
 
+#ifdef IOWOW_VERIF
+/* Verification hook: when set, called BEFORE each file effect of this module (and of the msync sites of
+ * iwexfile.c) and AFTER each log record applied by the WAL replay. No behaviour change when null. */
+#define IOWOW_VERIF_FX_HOOK 1
+#define IWVERIF_FX_WRITE     1
+#define IWVERIF_FX_PWRITE    2
+#define IWVERIF_FX_FTRUNCATE 3
+#define IWVERIF_FX_FALLOCATE 4
+#define IWVERIF_FX_FSYNC     5
+#define IWVERIF_FX_FDATASYNC 6
+#define IWVERIF_FX_MSYNC     7
+#define IWVERIF_FX_WALREC    8
+IW_EXPORT extern void (*iwverif_fx)(int kind, int fd, long long off, long long len);
+#define IWVERIF_FX(k_, fd_, off_, len_) \
+  do { if (iwverif_fx) iwverif_fx((k_), (int) (fd_), (long long) (off_), (long long) (len_)); } while (0)
+#else
+#define IWVERIF_FX(k_, fd_, off_, len_)
+#endif
+
 /**
  * @brief Get system page size.
  */
